@@ -26,6 +26,8 @@ type verifCam struct {
 	sdp     string
 	maxReq  int
 	dead    bool
+	// the order of the parameters in a Digest challenge
+	nonceFirst bool
 	// the camera misbehaves at most twice: at its fault1At-th and fault2At-th answer
 	fault1At, fault1Kind, fault2At, fault2Kind int
 }
@@ -83,7 +85,11 @@ func (c *verifCam) answer() {
 		}
 	case 1:
 		// every challenge carries a fresh nonce (cameras rotate them)
-		c.pending = []byte("RTSP/1.0 401 Unauthorized\r\nCSeq: " + cseq + "\r\nWWW-Authenticate: Digest realm=\"cam\", nonce=\"abc" + k + "\"\r\n\r\n")
+		if c.nonceFirst { // RFC 2617 does not fix the order of the challenge parameters
+			c.pending = []byte("RTSP/1.0 401 Unauthorized\r\nCSeq: " + cseq + "\r\nWWW-Authenticate: Digest nonce=\"abc" + k + "\", realm=\"cam\"\r\n\r\n")
+		} else {
+			c.pending = []byte("RTSP/1.0 401 Unauthorized\r\nCSeq: " + cseq + "\r\nWWW-Authenticate: Digest realm=\"cam\", nonce=\"abc" + k + "\"\r\n\r\n")
+		}
 	case 2:
 		c.pending = []byte("RTSP/1.0 401 Unauthorized\r\nCSeq: " + cseq + "\r\nWWW-Authenticate: Basic realm=\"cam\"\r\n\r\n")
 	case 3:
@@ -139,6 +145,7 @@ func VerifPullOpen() {
 	sdps := []string{verifSdp, verifSdpVideoOnly, verifSdpAbsolute, "not an sdp"}
 	cam := &verifCam{sdp: sdps[symapi.Choose("sdp", len(sdps))]}
 	cam.fault1At = symapi.IntRange("fault1At", 0, 6) // 0 = never
+	cam.nonceFirst = cam.fault1At > 0 && symapi.Bool("challengeListsNonceFirst")
 	if cam.fault1At > 0 {
 		cam.fault1Kind = symapi.IntRange("fault1Kind", 1, 6)
 		if symapi.Param("FAULTS", 1) >= 2 {
@@ -178,6 +185,7 @@ func VerifPullOpen() {
 			u := a[i+5:]
 			u = u[:strings.IndexByte(u, '"')]
 			symapi.Assert(u == r.URL.String(), "digest-uri-equals-the-request-uri")
+			symapi.Assert(strings.Contains(a, `realm="cam"`) && strings.Contains(a, `nonce="abc`), "digest-answers-the-challenge's-realm-and-nonce")
 		}
 	}
 	if openErr != nil {
